@@ -171,10 +171,31 @@ def rule_bytes(ctx):
   ok = len(rets) == 1 and rets[0] == want
   ctx.record(R, f.where, "big-endian minimal encode", ok, "int.to_bytes(x, ceil(bit_length / 8), 'big'): Bytes2Int(Int2Bytes(x)) = x, leading zero bytes are the only lost information" if ok
              else "Int2Bytes is %r" % (rets,))
+  # Hex2Bytes by value: every return is bytes.fromhex(T) with T the *parameter itself* on the paths that know its length is even and '0' + parameter on
+  # the paths that know it is odd (any rewriting of the text before decoding - stripping, case folding, prefix removal - can drop or add digits)
   f = repo.func("util", "Hex2Bytes")
-  src = ast.unparse(f.node)
-  ok = "if len(hexstr_val) % 2 != 0:" in src and "bytes.fromhex('0' + hexstr_val)" in src and src.count("bytes.fromhex") == 2
-  ctx.record(R, f.where, "odd-length hex left-padded", ok, "'0' + hex for odd lengths" if ok else "padding of odd-length hex strings changed")
+  w = sym.Walker(repo, f)
+  w.run()
+  hx = P("param", f.params()[0])
+  par = sym.mk("mod", sym.mk("len", hx), Poly.const(2))
+  probs = []
+  rets = [e for e in w.events if e.kind == "return" and e.node is not None]
+  for e in rets:
+    va = e.data["value"].as_atom() if isinstance(e.data["value"], Poly) else None
+    if va is None or va.kind not in ("mcall", "pm") or len(va.args) != 3 or repr(va.args[0]) != "glob('bytes')" or va.args[1] != P("lit", "fromhex"):
+      probs.append("a return is not bytes.fromhex(..): %r" % (e.data["value"],))
+      continue
+    arg = as_poly(va.args[2])
+    odd = any(fc[0] == "cmp" and isinstance(fc[2], Poly) and fc[2] == par and isinstance(fc[3], Poly) and ((fc[1] == "NotEq" and fc[3].as_int() == 0) or (fc[1] == "Eq" and fc[3].as_int() == 1)) for fc in e.facts)
+    even = any(fc[0] == "cmp" and isinstance(fc[2], Poly) and fc[2] == par and isinstance(fc[3], Poly) and ((fc[1] == "Eq" and fc[3].as_int() == 0) or (fc[1] == "NotEq" and fc[3].as_int() == 1)) for fc in e.facts)
+    if odd and arg == P("lit", "'0'") + hx:
+      continue
+    if even and arg == hx:
+      continue
+    probs.append("bytes.fromhex is applied to %s on a path where the length of the argument is %s" % (repr(arg)[:90], "odd" if odd else "even" if even else "not known to be even or odd"))
+  if not rets:
+    probs.append("no return")
+  ctx.record(R, f.where, "odd-length hex left-padded", not probs, "; ".join(probs[:2]) or "'0' + hex for odd lengths, the text itself for even lengths")
   f = repo.func("ec_util", "PublicPoint")
   w = sym.Walker(repo, f)
   w.run()
